@@ -430,6 +430,11 @@ def rule_memo(repo: Repo, rep: Report) -> int:
 
 
 def run(repo: Repo, rep: Report, tier: str) -> None:
+    if tier == "thorough":
+        sm_ = repo.func(AN, "LaplacianChannel._get_laplacian_noise")
+        st_, d_, _cap = laplace_sampler_evaluated(sm_)
+        if st_ is not None:
+            rep.add("LAPLACE-UNIT", sm_, "sampler evaluated as a function of its uniform draw on a 41-point grid (thorough tier)", st_, d_, node=sm_.node)
     n = rule_apply_noise(repo, rep)
     n += rule_awgn(repo, rep)
     n += rule_override_verbatim(repo, rep)
